@@ -3,3 +3,4 @@ CONSTANTS
   MaxLen = 2
 INVARIANT Emit
 INVARIANT EmitWrap
+INVARIANT EmitWide
